@@ -20,25 +20,57 @@ static std::vector<OpRec> ops; static long gseq = 0;
 static __thread OpRec *cur = nullptr;
 static std::map<long, long> publish_at;	// push ticket -> global sequence at which seqP[lane] was published
 static const volatile void *a_preadP, *a_preadC, *a_seqP0, *a_seqP1;
+static uint64_t loc_h[32]; static __thread int my_slot = -1;
+static inline void mixh(uint64_t& h, uint64_t v) { h ^= v + 0x9e3779b97f4a7c15ULL + (h << 6) + (h >> 2); }
 
-extern "C" void vs_hook_cas(const volatile void *addr, unsigned long exchange, unsigned long compare, unsigned long result, int)
-{ VS_BOOKKEEPING_BEGIN(); ++gseq; if (cur && result == compare && (addr == a_preadP || addr == a_preadC)) { cur->ticket = (long)compare; cur->cas_at = gseq; } VS_BOOKKEEPING_END(); }
-extern "C" void vs_hook_set(const volatile void *addr, unsigned long value, int)
-{ VS_BOOKKEEPING_BEGIN(); ++gseq; if (cur && cur->push && (addr == a_seqP0 || addr == a_seqP1)) publish_at[cur->ticket] = gseq; VS_BOOKKEEPING_END(); }
-extern "C" void vs_hook_read(const volatile void *addr, unsigned long, int)
-{ VS_BOOKKEEPING_BEGIN(); ++gseq; if (cur && !cur->push && (addr == a_seqP0 || addr == a_seqP1)) cur->observe_seq = gseq; VS_BOOKKEEPING_END(); }
+extern "C" void vs_hook_cas(const volatile void *addr, unsigned long exchange, unsigned long compare, unsigned long result, int line)
+{ VS_BOOKKEEPING_BEGIN(); ++gseq; if (my_slot >= 0) { mixh(loc_h[my_slot], (uint64_t)line << 32 ^ 1); mixh(loc_h[my_slot], result); } if (cur && result == compare && (addr == a_preadP || addr == a_preadC)) { cur->ticket = (long)compare; cur->cas_at = gseq; } VS_BOOKKEEPING_END(); }
+extern "C" void vs_hook_set(const volatile void *addr, unsigned long value, int line)
+{ VS_BOOKKEEPING_BEGIN(); ++gseq; if (my_slot >= 0) { mixh(loc_h[my_slot], (uint64_t)line << 32 ^ 2); mixh(loc_h[my_slot], value); } if (cur && cur->push && (addr == a_seqP0 || addr == a_seqP1)) publish_at[cur->ticket] = gseq; VS_BOOKKEEPING_END(); }
+extern "C" void vs_hook_read(const volatile void *addr, unsigned long value, int line)
+{ VS_BOOKKEEPING_BEGIN(); ++gseq; if (my_slot >= 0) { mixh(loc_h[my_slot], (uint64_t)line << 32 ^ 3); mixh(loc_h[my_slot], value); } if (cur && !cur->push && (addr == a_seqP0 || addr == a_seqP1)) cur->observe_seq = gseq; VS_BOOKKEEPING_END(); }
 
 static int tokens[64];
+
+// ---- part full=1: every interleaving of a small configuration, no preemption bound.  The search is cut where a state recurs,
+// so the state hash must hold everything the future and the verdict depend on: the shared cursors and sequence arrays, the
+// lanes (read/write index and contents; a lane that switched segments gets a unique hash, i.e. is never cut), for every thread
+// a hash of what its current operation has observed so far (the code is deterministic: position + observed values = its
+// locals), the summary (ticket, element, result) of every finished operation, and the sticky verdict of the monitor that
+// replaces the two history-based "empty" clauses: a pop that reports empty although, when it started, tickets 0..K-1 were all
+// published and fewer than K are reserved now.
+static bool FULL = false;
+static long kstart[32];
+static bool monitor_bad = false; static std::string monitor_msg; static uint64_t unique_ctr = 0;
+static long published_prefix()	// number of tickets 0..K-1 whose push has published (lane = ticket & 1, seqP[lane] = ticket + 2 after it)
+{ long k = 0; for (;; ++k) if ((long)Q->seqP[k & 1].counter < k + 2) break; return k; }
+static uint64_t state_hash()
+{
+	uint64_t h = 1469598103934665603ULL;
+	mixh(h, Q->preadP.counter); mixh(h, Q->preadC.counter);
+	for (int i = 0; i < 2; ++i) { mixh(h, Q->seqP[i].counter); mixh(h, Q->seqC[i].counter); }
+	for (int i = 0; i < 2; ++i) {
+		ff::uSWSR_Ptr_Buffer *ub = (ff::uSWSR_Ptr_Buffer *)Q->buf[i];
+		if (ub->buf_r != ub->buf_w) return 0xf000000000000000ULL + ++unique_ctr;	// segment switch: structure not captured, never merged
+		ff::SWSR_Ptr_Buffer *b = ub->buf_r;
+		mixh(h, b->pread); mixh(h, b->pwrite);
+		for (unsigned long j = b->pread; j != b->pwrite; j = (j + 1) % b->size) mixh(h, b->buf[j] ? (uint64_t)((int *)b->buf[j] - tokens) + 1 : 0);
+	}
+	for (int i = 0; i < 32; ++i) mixh(h, loc_h[i]);
+	for (auto& r : ops) if (r.start) { mixh(h, (uint64_t)(r.end != 0)); if (r.end) { mixh(h, (uint64_t)r.ticket + 7); mixh(h, (uint64_t)r.token + 3); mixh(h, r.ok); } }
+	mixh(h, monitor_bad);
+	return h;
+}
 struct Arg { int id; };
 static void *producer(void *a)
 {
 	int id = ((Arg *)a)->id;
 	for (int k = 0; k < NPUSH; ++k) {
 		const int tok = id * 10 + k;
-		VS_BOOKKEEPING_BEGIN(); OpRec *r = &ops[id * 8 + k]; r->thread = id; r->push = true; r->token = tok; cur = r; r->start = ++gseq; VS_BOOKKEEPING_END();
+		VS_BOOKKEEPING_BEGIN(); my_slot = id; loc_h[id] = 1000 + k; OpRec *r = &ops[id * 8 + k]; r->thread = id; r->push = true; r->token = tok; cur = r; r->start = ++gseq; VS_BOOKKEEPING_END();
 		tokens[tok] = tok;	// the element's content: written by the producer, read by the consumer that pops it (visible to ThreadSanitizer)
 		const bool ok = Q->push(&tokens[tok]);
-		VS_BOOKKEEPING_BEGIN(); r->ok = ok; r->end = ++gseq; cur = nullptr; VS_BOOKKEEPING_END();
+		VS_BOOKKEEPING_BEGIN(); r->ok = ok; r->end = ++gseq; cur = nullptr; loc_h[id] = 2000 + k; VS_BOOKKEEPING_END();
 	}
 	return 0;
 }
@@ -46,10 +78,13 @@ static void *consumer(void *a)
 {
 	int id = ((Arg *)a)->id;
 	for (int k = 0; k < NPOP; ++k) {
-		VS_BOOKKEEPING_BEGIN(); OpRec *r = &ops[(8 + id) * 8 + k]; r->thread = 100 + id; r->push = false; cur = r; r->start = ++gseq; VS_BOOKKEEPING_END();
+		VS_BOOKKEEPING_BEGIN(); my_slot = 8 + id; loc_h[8 + id] = 1000 + k; kstart[8 + id] = FULL ? published_prefix() : 0; mixh(loc_h[8 + id], (uint64_t)kstart[8 + id]);
+		OpRec *r = &ops[(8 + id) * 8 + k]; r->thread = 100 + id; r->push = false; cur = r; r->start = ++gseq; VS_BOOKKEEPING_END();
 		void *p = nullptr; const bool ok = Q->pop(&p);
 		const int tok = ok && p ? *(int *)p : -1;	// reading the element is the consumer's business: visible to ThreadSanitizer
-		VS_BOOKKEEPING_BEGIN(); r->ok = ok; r->end = ++gseq; cur = nullptr; r->token = tok; VS_BOOKKEEPING_END();
+		VS_BOOKKEEPING_BEGIN(); r->ok = ok; r->end = ++gseq; cur = nullptr; r->token = tok; loc_h[8 + id] = 2000 + k;
+		if (FULL && !ok && kstart[8 + id] > (long)Q->preadC.counter && !monitor_bad) { monitor_bad = true; monitor_msg = "pop reported empty although tickets 0.." + std::to_string(kstart[8 + id] - 1) + " were published when it started and only " + std::to_string((long)Q->preadC.counter) + " are reserved now"; }
+		VS_BOOKKEEPING_END();
 	}
 	return 0;
 }
@@ -58,7 +93,7 @@ static std::string body()
 {
 	Q = new ff::uMPMC_Ptr_Queue; Q->init(2, 4);
 	a_preadP = &Q->preadP; a_preadC = &Q->preadC; a_seqP0 = &Q->seqP[0]; a_seqP1 = &Q->seqP[1];
-	ops.assign(16 * 8, OpRec()); publish_at.clear(); gseq = 0;
+	ops.assign(16 * 8, OpRec()); publish_at.clear(); gseq = 0; memset(loc_h, 0, sizeof loc_h); memset(kstart, 0, sizeof kstart); monitor_bad = false; monitor_msg.clear(); my_slot = -1;
 	pthread_t pt[8], ct[8]; Arg pa[8], ca[8];
 	for (int i = 0; i < NP; ++i) { pa[i].id = i; pthread_create(&pt[i], 0, producer, &pa[i]); }
 	for (int i = 0; i < NC; ++i) { ca[i].id = i; pthread_create(&ct[i], 0, consumer, &ca[i]); }
@@ -86,7 +121,8 @@ static std::string body()
 	if (verdict.empty()) { long t = popped_by_ticket.empty() ? 0 : popped_by_ticket.rbegin()->first + 1; for (int d : drained) { auto it = pushed_by_ticket.find(t); if (it == pushed_by_ticket.end() || it->second != d) { verdict = "reservation-order|drain returned " + std::to_string(d) + " at ticket " + std::to_string(t); break; } ++t; } }
 	// per-producer order in the overall pop order (by ticket)
 	// empty only if the push holding the ticket the pop was waiting for had not published when the pop looked
-	if (verdict.empty()) {
+	if (verdict.empty() && FULL && monitor_bad) verdict = "empty-only-if-nothing-pushed-ahead|" + monitor_msg;
+	if (verdict.empty() && !FULL) {
 		long next_ticket = 0;	// pops by start order: an empty pop waits for the smallest ticket not yet consumed at that time
 		std::vector<const OpRec *> pops; for (auto& r : ops) if (r.start && !r.push) pops.push_back(&r);
 		std::sort(pops.begin(), pops.end(), [](const OpRec *a, const OpRec *b) { return a->observe_seq < b->observe_seq; });
@@ -107,7 +143,7 @@ static std::string body()
 	}
 	// an empty answer is also wrong, whatever the pop looked at, if tickets 0..K-1 had all been published before the pop started
 	// and fewer than K pops had reserved a ticket by the time it returned: the element with ticket #reservations was there all along
-	if (verdict.empty()) {
+	if (verdict.empty() && !FULL) {
 		for (auto& r : ops) {
 			if (!r.start || r.push || r.ok) continue;
 			long K = 0; while (publish_at.count(K) && publish_at[K] < r.start) ++K;
@@ -123,7 +159,9 @@ int main(int argc, char **argv)
 {
 	vh::Run R(argc, argv);
 	NP = (int)R.args.num("p", 2); NPUSH = (int)R.args.num("pushes", 2); NC = (int)R.args.num("c", 1); NPOP = (int)R.args.num("pops", 4);
-	const int bound = (int)R.args.num("bound", 2);
+	FULL = R.args.num("full", 0) != 0;
+	const int bound = FULL ? 1000 : (int)R.args.num("bound", 2);
+	if (FULL) vs_set_state_hash(state_hash);
 	const std::string cfg = "p" + std::to_string(NP) + "x" + std::to_string(NPUSH) + "c" + std::to_string(NC) + "x" + std::to_string(NPOP);
 	std::set<std::string> distinct;
 	auto judge = [&](const sx::Exec& x, const std::string& id) {
@@ -142,7 +180,8 @@ int main(int argc, char **argv)
 		R.finish(); return R.violations ? 1 : 0;
 	}
 	sx::Stats S;
-	for (int b = 0; b <= bound && !S.capped; ++b) { if (b < bound) continue; sx::explore(R, cfg, body, judge, b, S); }
+	sx::explore(R, cfg, body, judge, bound, S, FULL);
+	if (FULL) R.counters["states_cut"] = S.pruned;
 	R.counters["bound_completed"] = S.bound_completed; R.counters["max_points"] = S.maxpts; R.counters["distinct_outcomes"] = (long long)distinct.size();
 	R.traces = S.execs;
 	R.finish(!S.capped);
